@@ -44,9 +44,10 @@ def run(ctx):
         r = ctx.tlc("Codec", "Codec.cfg", workers=8)
         rx = ctx.tlc("Codec", "Codec_export.cfg", workers=1, count=False)
     ctx.log("Codec.tla: %d cases, reference operators satisfy the property" % r.distinct)
-    rz = ctx.tlc("Codec", "Codec_zeropad.cfg", allow_violation=True, count=False, workers=1)
-    if rz.violated != "PrefixRejected":
-        raise vlib.ToolError("zero-padding decoder not caught by PrefixRejected (got %s)" % rz.violated)
+    if not ctx.quick:
+        rz = ctx.tlc("Codec", "Codec_zeropad.cfg", allow_violation=True, count=False, workers=1)
+        if rz.violated != "PrefixRejected":
+            raise vlib.ToolError("zero-padding decoder not caught by PrefixRejected (got %s)" % rz.violated)
     vecs = {"vec": rx.printed_json("VEC"), "lvec": rx.printed_json("LVEC"), "hvec": rx.printed_json("HVEC")}
     nvec = sum(len(v) for v in vecs.values())
     if nvec < 500:
@@ -55,7 +56,7 @@ def run(ctx):
         json.dump(vecs, fh)
     ctx.log("exported %d vectors (%d hostile)" % (nvec, len(vecs["hvec"])))
 
-    ctx.harness("./c03", "TestTrace", env={"VERIF_N": ctx.pick(40, 400)}, timeout=900)
+    ctx.harness("./c03", "TestTrace", env={"VERIF_N": ctx.pick(24, 400)}, timeout=900)
     st = json.load(open(ctx.path("stats.json")))
     recs = vlib.read_ndjson(ctx.path("trace.ndjson"))
     rejected, matched, tstates = ctx.validate_runs("Codec_Trace", recs, max_rejects=60)
